@@ -1,3 +1,4 @@
+import Driver.FpCheck
 import Driver.Monitors
 import Driver.SimRun
 import Driver.CodecRun
@@ -62,6 +63,9 @@ def runFw (cases : List CaseBlock) : IO Unit := do
       | none => pure ()
 
 def main (args : List String) : IO UInt32 := do
+  match args with
+  | ["fpcheck", n, seed] => return (← fpcheck (n.toNat?.getD 1000) (UInt64.ofNat (seed.toNat?.getD 1)))
+  | _ => pure ()
   let stdin ← IO.getStdin
   let lines ← readAll stdin #[]
   let (cases, bad) := splitCases lines.toList [] 0
